@@ -361,3 +361,60 @@ Theorem C01_model_passes_on_the_wire : forall v,
   l_var (dec_lcase v) = fixed -> ok_C01 (dec_lcase v) (dec_obs (lts_run v)) = true.
 Proof. exact (fun v H => proj1 (proj2 (wire_model_passes v H))). Qed.
 Print Assumptions C01_model_passes_on_the_wire.
+
+(* ---- 9. transport adapters ---------------------------------------------------------------------
+   The theorems above speak about the list [c_out] of packets handed to a consumer.  A client sits
+   behind a transport adapter (service/rtsp tcpConsumer incl. ws-rtsp, udpConsumer; service/wsp;
+   service/flv).  Model/C01Wire.v mirrors what each RTP adapter writes for a delivered list [out]
+   under the SETUP's channel map; the theorems say that an INDEPENDENT client-side reader recovers
+   from those bytes exactly the subscribed packets of [out], in order, with their payloads.
+   Proved: the three faithfulness theorems and that the oracle [ok_wire] accepts the model's client.
+   Only checked (stream "transports" of checks/c01.py, real handlers on sockets): that the real
+   adapters produce these bytes; for HTTP-FLV / ws-FLV that the tags a client parses with the real
+   FLV reader are the tags an in-process consumer attached at the same quiescent moment received
+   ([ok_flv]: types and data equal, timestamps equal up to the writer's constant rebase). *)
+From V Require C01Wire C01WireProofs.
+
+Theorem C01_wire_tcp_faithful : forall chmap out fuel,
+  forallb C01Wire.pkt_wf out = true -> (length out <= fuel)%nat ->
+  C01Wire.parse_frames fuel (C01Wire.wire_tcp chmap out) = Some (C01Wire.client_view chmap out).
+Proof. exact C01WireProofs.wire_tcp_faithful. Qed.
+Print Assumptions C01_wire_tcp_faithful.
+
+Theorem C01_wire_ws_faithful : forall chmap out,
+  forallb C01Wire.pkt_wf out = true ->
+  C01Wire.parse_messages (C01Wire.wire_ws chmap out) = Some (C01Wire.client_view chmap out).
+Proof. exact C01WireProofs.wire_ws_faithful. Qed.
+Print Assumptions C01_wire_ws_faithful.
+
+Theorem C01_wire_udp_faithful : forall dest out ch,
+  C01Wire.wire_udp dest out ch = if dest ch then map snd (C01Wire.on_channel ch out) else [].
+Proof. exact C01WireProofs.wire_udp_faithful. Qed.
+Print Assumptions C01_wire_udp_faithful.
+
+(* the oracle applied to real clients accepts the model's client, for every channel map and every
+   delivered list of well-formed packets (channel 0..3, at most 65535 bytes) *)
+Theorem C01_wire_model_passes : forall kind chmap out obs,
+  kind <> 1%Z -> forallb C01Wire.pkt_wf out = true ->
+  C01Wire.model_client kind chmap out = Some obs -> C01Wire.ok_wire kind chmap out obs = true.
+Proof. exact C01WireProofs.wire_model_passes_stream. Qed.
+Print Assumptions C01_wire_model_passes.
+
+Theorem C01_wire_model_client_defined : forall kind chmap out,
+  forallb C01Wire.pkt_wf out = true -> exists obs, C01Wire.model_client kind chmap out = Some obs.
+Proof. exact C01WireProofs.wire_model_client_defined. Qed.
+Print Assumptions C01_wire_model_client_defined.
+
+Theorem C01_wire_model_passes_udp : forall dest out,
+  C01Wire.ok_wire_udp (C01Wire.client_view (C01Wire.udp_map dest) out) (C01WireProofs.udp_client dest out) = true.
+Proof. exact C01WireProofs.wire_model_passes_udp. Qed.
+Print Assumptions C01_wire_model_passes_udp.
+
+(* non-vacuity: video on wire channel 4, audio not subscribed *)
+Example C01_wire_nonvacuous :
+  let chmap := fun ch => if (ch =? 0)%Z then 4%Z else (-1)%Z in
+  let out := [(0, [1; 2; 3]); (2, [9]); (0, [])]%Z in
+  forallb C01Wire.pkt_wf out = true /\
+  C01Wire.wire_tcp chmap out = [36; 4; 0; 3; 1; 2; 3; 36; 4; 0; 0]%Z /\
+  C01Wire.model_client 0 chmap out = Some [(4, [1; 2; 3]); (4, [])]%Z.
+Proof. vm_compute. repeat split. Qed.
